@@ -50,7 +50,7 @@ func VerifC16List() {
 		delim = "/"
 		vCover("delimiter")
 	}
-	c := vChoose("pageSize", 5) + 1
+	c := vInt("pageSize", 1, 5) // symbolic page size
 	// reference: the key/value model
 	var want []string
 	for _, k := range keys {
